@@ -458,6 +458,12 @@ def worker(args):
             a = added[ai]
             ai += 1
             disch('field%d-type' % i, a['ftype'] == fields[i]['ctype'])
+            # sequence initializers of a union set its first member only (C20 relies on this flag)
+            # (only stated for aggregates whose earlier members are all named: cffi counts an unnamed bit-field as a
+            #  position, so a union that *starts* with unnamed bit-fields has no member settable by position)
+            if ai - 1 == i:
+                want_fl = F['BF_IGNORE_IN_CTOR'] if (is_union and i > 0) else 0
+                disch('field%d-ctor-flag' % i, bv(a['flags'], 32) & F['BF_IGNORE_IN_CTOR'] == want_fl)
             if k == 'bitfield':
                 disch('field%d-bit-position' % i, 8 * bv(a['offset'], 64) + z3.SignExt(32, bv(a['bitshift'], 32)) == per[i]['bitpos'])
                 disch('field%d-bit-width' % i, z3.SignExt(32, bv(a['bitsize'], 32)) == per[i]['width'])
